@@ -17,7 +17,7 @@ KINDS = ['mod', 'link', 'add', 'unlink', 'commit', 'abort', 'rival',
 # a new object that is reachable only through an existing object, whose
 # store can fail after the new object was given its oid
 LINKA = ['linka', 'link', 'add', 'mod', 'rival', 'commit',
-         'commit-vote-fail', 'abort']
+         'commit-vote-fail', 'commit-unpicklable', 'abort']
 
 
 def make_spec(cfg):
